@@ -260,7 +260,7 @@ def _seams(w):
         return f'tok{w._spec_tokens:05d}'.ljust(n, 'x')[:n]
 
     sw.secret_alnum_string = sas
-    logging.disable(logging.CRITICAL)
+    logging.disable(logging.NOTSET)  # records are built and formatted by boot._FormatAndDrop, then dropped
     try:
         yield
     finally:
